@@ -4,7 +4,6 @@ sys.path.insert(0, os.path.dirname(os.path.abspath(__file__)))
 import props
 
 NA = {
-    'C02': 'whole-interpreter semantics over all programs, implemented as mutually recursive async executors on Env; no function-level contract expresses it and neither verifier can hold a symbolic program',
     'C05': 'directory walk over the System trait whose per-name decision is a regex-engine call; needs a file-system and regex model, not a contract on this code',
     'C06': 'totality and print/re-parse equality of the entire async parser and its Display impls over all strings; a whole-call-graph property, out of both tools\' subset/capacity',
     'C13': 'quantified over process schedules; the family is silent on concurrency, and the mechanism is async over shared Rc<RefCell> state',
@@ -112,6 +111,10 @@ TECH['C09'] = 'contract-based deductive verification (Verus, Z3) of perform / re
 LEVEL_TEXT['C18'] = 'Kernel only. Unbounded deductive proof (Verus) on the real FdReader2::next_line against an assumed model of read(2): each read asks for one byte, the bytes consumed from the descriptor are exactly the returned line, ending at the first newline, on success and on error; nothing that follows the line is taken from the input. The lexer / read-eval-loop half of the property (a new line is requested only when needed, each command runs before the next is read) is async interpreter code and is not decided; level other because the claim is a kernel over a model of the OS side.'
 NOTE['C18'] = 'Kernel only (the line reader). Trusted: Verus/Z3; the synchronous model of Read; assumed contract of slice::from_mut; await points dropped; text conversion uninterpreted. Not covered: lexer buffer management, runner, Memory / Echo / prompt decorators, cross-process sharing of the descriptor.'
 TECH['C18'] = 'contract-based deductive verification (Verus, Z3) of FdReader2::next_line (loop invariant over the consumed byte stream of a model descriptor)'
+
+LEVEL_TEXT['C02'] = 'Two kernels only. Unbounded deductive proof (Verus) that the command search resolves a name in the POSIX order (special built-in, function, other built-in, external utility; a slash means a path) and settles the path and the not-found / unusable errors as documented, and that break n / continue n leave min(n, enclosing loops) loops or fail outside a loop; bounded Kani check (stacks of <= 3-4 frames) of Stack::loop_count, the function that counts the enclosing loops of the current execution environment. The statement as a whole (which commands run, in which order, with which $?) is whole-interpreter async code and is not decided; level other because of that and of the bounded part.'
+NOTE['C02'] = 'Kernels only (command search order; break/continue levels). Trusted: Verus/Z3, Kani/CBMC; ghost views on the environment traits; search_path assumed; loop_count assumed in Verus and bounded-checked in Kani. Not covered: all executors (and-or, pipelines, compound commands, functions, return/exit), decoding of diverts by loops, Env::builtin, PATH walking.'
+TECH['C02'] = 'contract-based deductive verification (Verus, Z3) of classify / search / resolve_builtin and of break/continue run + bounded Kani harness-encoded contract of Stack::loop_count on the real crate'
 
 
 def main():
